@@ -823,3 +823,19 @@ package ro
 //@   ensures [asks-once] !panics ==> count(callfn.predicate) == 1
 //@   ensures [then-branch] !panics && res(callfn.predicate) ==> result == source1
 //@   ensures [else-branch] !panics && !res(callfn.predicate) ==> result == source2
+
+// time-driven operators, second batch (C16)
+
+//@ operator ThrottleTime
+//@   props C04 C16
+//@   note a value passes only when strictly more than the configured duration (in the clock's own unit, nanoseconds) has elapsed since the last value that passed
+//@   track call.NowNanoMonotonic
+//@   requires intervalNano == interval
+//@   on next(ctx, value) when lastAt + interval < res(call.NowNanoMonotonic) : emits call.NowNanoMonotonic(), Next(ctx, value) ; post lastAt' == res(call.NowNanoMonotonic)
+//@   on next(ctx, value) when lastAt + interval >= res(call.NowNanoMonotonic) : emits call.NowNanoMonotonic() ; post lastAt' == lastAt
+
+//@ operator DelayEach
+//@   props C04 C16
+//@   note each value is handed on only after the producer has been held for the whole duration
+//@   track call.Sleep
+//@   on next(ctx, value) : emits call.Sleep(duration), Next(ctx, value)
